@@ -230,3 +230,22 @@ def a5(ctx):
 
 
 RULES = [a1, a2, a3, a4, a5]
+
+
+@rule("A6", doc="equal classes share one datum: the public accessors go through the canonical id")
+def a6(ctx):
+    crate = ctx.lib()
+    n = 0
+    for name in ("analysis_data", "analysis_data_mut"):
+        for b in crate.method("egraph::EGraph", name):
+            n += 1
+            idx = [c for c in b.calls if c.callee and c.callee.name in ("index", "get", "get_mut", "index_mut") and c.args and role_mentions_field(b.role_of_operand(c.args[0]), "classes") and not b.blocks[c.bb]["cleanup"]]
+            ok = bool(idx) and all(role_mentions_call(b.role_of_operand(c.args[1]), "find_id") or role_mentions_call(b.role_of_operand(c.args[1]), "find_applied_id") for c in idx)
+            ctx.check(ok, "canonical-id:" + name, "%s indexes classes by find_id(i)" % name,
+                      "%s reads the datum of the class record of the id as given: after a merge an old handle sees a stale datum, so equal classes do not share one datum" % name, where_of(b))
+            r = b.role_of_local(0)
+            ctx.check(role_mentions_field(r, "analysis_data"), "returns-datum:" + name, "%s returns the class's analysis_data" % name, "%s returns %s" % (name, role_str(r)[:80]), where_of(b))
+    ctx.floor("datum accessors", n, 2)
+
+
+RULES.append(a6)
